@@ -15,6 +15,10 @@ func init() { Registry["C15"] = C15 }
 
 const heuristicPkg = "mod/internal/filter/heuristic"
 
+// the <title> or first <h1> below the extractor's document element (or below the parameter of
+// the title heuristic when that is analysed on its own)
+var rxTitleSource = regexp.MustCompile(`^dom\.QuerySelector\((\$0|\$0\.‹\*html\.Node›),"(title|h1)"\)$`)
+
 // titleProvenance checks that a string value is built from the <title>/<h1> text by
 // substring-preserving operations only. It returns a description of the first offending construct.
 func titleProvenance(p *core.Program, v ssa.Value, seen map[ssa.Value]bool) string {
@@ -57,7 +61,7 @@ func titleProvenance(p *core.Program, v ssa.Value, seen map[ssa.Value]bool) stri
 		switch f.String() {
 		case core.ExpandKey(domutilPkg) + ".InnerText":
 			a := c.Of(x.Call.Args[0])
-			if a == `dom.QuerySelector($0,"title")` || a == `dom.QuerySelector($0,"h1")` {
+			if rxTitleSource.MatchString(a) {
 				return ""
 			}
 			return "text of " + a
@@ -85,116 +89,95 @@ func C15(p *core.Program, r *core.Report) {
 	r.NotCovered = "the separator heuristics themselves (which part of a long <title> is chosen), the word counter, titles repeated with different punctuation beyond the two documented lookups."
 
 	c := core.NewCanon(p)
-	// ---- A1
-	if et := mustFunc(p, r, "A1", "(*"+extractorPkg+".ContentExtractor).ensureTitleInitialized"); et != nil {
-		paths, atoms, err := core.EnumerateDecisions(p, et, core.DecisionOpts{
+	// ---- A1 / A2: ExtractTitle with its helpers expanded
+	cand := "$0.‹[]string›" // the extractor's candidate title list
+	mt := `markup.Parser.Title($0.Parser)`
+	title := `μ(""|domutil.InnerText(dom.QuerySelector($0.‹*html.Node›,"title")))`
+	if ex := mustInl(p, r, "A1", "(*"+extractorPkg+".ContentExtractor).ExtractTitle"); ex != nil {
+		nDoc := 0
+		paths, atoms, err := core.EnumerateDecisions(p, ex, core.DecisionOpts{
 			Outcome: func(in ssa.Instruction, c *core.Canon) (string, bool) {
-				if _, ok := in.(*ssa.Return); ok {
-					return "done", true
+				if ret, ok := in.(*ssa.Return); ok {
+					return "return " + c.Of(ret.Results[0]), true
 				}
 				return "", false
 			},
 			Event: func(in ssa.Instruction, c *core.Canon) (string, bool) {
-				if call, ok := in.(*ssa.Call); ok {
-					if b, ok := call.Call.Value.(*ssa.Builtin); ok && b.Name() == "append" {
-						return "add " + c.Of(call.Call.Args[1]), true
+				call, ok := in.(*ssa.Call)
+				if !ok {
+					return "", false
+				}
+				if b, ok := call.Call.Value.(*ssa.Builtin); !ok || b.Name() != "append" || c.Of(call.Call.Args[0]) != cand {
+					return "", false
+				}
+				el := c.Of(call.Call.Args[1])
+				if el == "{"+mt+"}" {
+					return "add markup title", true
+				}
+				// anything else must be made of <title>/<h1> text (A2)
+				if v := appendedElem(call); v != nil {
+					if w := titleProvenance(p, v, map[ssa.Value]bool{}); w == "" {
+						nDoc++
+						return "add document title", true
+					} else {
+						return "add " + el + " [" + w + "]", true
 					}
 				}
-				return "", false
+				return "add " + el, true
 			}})
 		if err != nil {
-			r.Undecided("A1", "ensureTitleInitialized", err.Error())
+			r.Undecided("A1", "ExtractTitle", err.Error())
 		}
-		mt := `markup.Parser.Title($0.Parser)`
-		dt := `extractor.getDocumentTitle($0.documentElement,$0.WordCounter)`
+		first := "return " + cand + "[0]"
 		spec := core.DecisionSpec{
-			Atoms: map[string]string{"fresh": q(`len($0.candidateTitles) <= 0`), "no.markup.title": q(mt + ` == ""`)},
+			Atoms: map[string]string{"fresh": q(`len(` + cand + `) <= 0`), "no.markup.title": q(mt + ` == ""`)},
 			Rules: []core.SpecRule{
-				{Name: "already initialised", Guard: core.Not(core.A("fresh")), Outcome: "done"},
-				{Name: "markup title first, then the document title", Guard: core.Not(core.A("no.markup.title")), Outcome: "add {" + mt + "}; add {" + dt + "} => done"},
-				{Name: "no markup title: document title only", Guard: core.True(), Outcome: "add {" + dt + "} => done"},
+				{Name: "already initialised: first candidate", Guard: core.Not(core.A("fresh")), Outcome: first},
+				{Name: "markup title first, then the document title", Guard: core.Not(core.A("no.markup.title")), Outcome: "add markup title; add document title => " + first},
+				{Name: "no markup title: document title only", Guard: core.True(), Outcome: "add document title => " + first},
 			},
 		}
-		core.CheckDecisionList(r, "A1", "ensureTitleInitialized", paths, atoms, spec)
-	}
-	if ex := mustFunc(p, r, "A1", "(*"+extractorPkg+".ContentExtractor).ExtractTitle"); ex != nil {
-		okAll := true
-		var rs []string
-		for _, ret := range core.Returns(ex) {
-			s := c.Of(ret.Results[0])
-			rs = append(rs, s)
-			if s != `""` && s != "elem($0.candidateTitles)" {
-				okAll = false
-			}
-		}
-		// index 0
-		for _, b := range ex.Blocks {
-			for _, in := range b.Instrs {
-				if ia, ok := in.(*ssa.IndexAddr); ok {
-					if i, isC := core.ConstInt(ia.Index); !isC || i != 0 {
-						okAll = false
-					}
-				}
-			}
-		}
-		r.Add("A1", "ExtractTitle returns the first candidate (or \"\")", p.Pos(ex.Pos()), okAll && len(rs) == 2, strings.Join(rs, " | "))
-	}
-	if ap := mustFunc(p, r, "A1", core.ModPath+".Apply"); ap != nil {
-		ok := false
-		for _, b := range ap.Blocks {
-			for _, in := range b.Instrs {
-				if st, isSt := in.(*ssa.Store); isSt && c.Of(st.Addr) == "&new(distiller.Result).Title" {
-					ok = strings.HasPrefix(c.Of(st.Val), "extractor.ContentExtractor.ExtractTitle(")
-				}
-			}
-		}
-		r.Add("A1", "Result.Title is the extractor's first candidate", p.Pos(ap.Pos()), ok, "")
-	}
-
-	// ---- A2
-	if gt := mustFunc(p, r, "A2", extractorPkg+".getDocumentTitle"); gt != nil {
-		for i, ret := range core.Returns(gt) {
-			w := titleProvenance(p, ret.Results[0], map[ssa.Value]bool{})
-			r.Add("A2", fmt.Sprintf("getDocumentTitle return #%d is made of <title>/<h1> text only", i+1), p.Pos(ret.Pos()), w == "", "offending construct: "+w)
-		}
-		// length gate in characters
-		atoms := map[string]bool{}
-		cc := core.NewCanon(p)
-		for _, b := range gt.Blocks {
-			if len(b.Instrs) == 0 {
+		// after the appends the list is non-empty: the `len > 0` test of ExtractTitle is decided by
+		// the same atom as `fresh`; paths that claim an empty list after an append are infeasible
+		var feasible []core.DecisionPath
+		for _, pa := range paths {
+			if strings.Contains(pa.Outcome, "add ") && pa.Outcome[strings.LastIndex(pa.Outcome, "=> ")+3:] == `return ""` {
 				continue
 			}
-			if ifi, ok := b.Instrs[len(b.Instrs)-1].(*ssa.If); ok {
-				a, _ := cc.CondAtom(ifi.Cond)
-				atoms[a] = true
-			}
+			feasible = append(feasible, pa)
 		}
-		title := `μ(""|domutil.InnerText(dom.QuerySelector($0,"title")))`
-		r.Add("A2", "title length gate: more than 150 characters", p.Pos(gt.Pos()), atoms[`utf8.RuneCountInString(`+title+`) <= 150`], "counted with utf8.RuneCountInString on the <title> text")
-		r.Add("A2", "title length gate: fewer than 15 characters", p.Pos(gt.Pos()), atoms[`utf8.RuneCountInString(`+title+`) <= 14`], "")
-		r.Add("A2", "separator test on the <title> text", p.Pos(gt.Pos()), atoms[`regexp.Regexp.MatchString(extractor.rxTitleSeparator,`+title+`)`] && atoms[`strings.Index(`+title+`,": ") == -1`], "")
-		// on the "plain title of acceptable length" paths the h1 is not consulted
-		paths, _, _ := core.EnumerateDecisions(p, gt, core.DecisionOpts{Outcome: func(in ssa.Instruction, c *core.Canon) (string, bool) {
-			if ret, ok := in.(*ssa.Return); ok {
-				return "return " + c.Of(ret.Results[0]), true
-			}
-			return "", false
-		}})
+		core.CheckDecisionList(r, "A1", "ExtractTitle", feasible, atoms, spec)
+		r.Add("A2", "the second candidate is made of <title>/<h1> text only (slicing, trimming, whitespace joins)", p.Pos(ex.Pos()), nDoc > 0, fmt.Sprintf("%d append events carry a value of that provenance", nDoc))
+		// A2: length gate in characters, separator tests
+		r.Add("A2", "title length gate: more than 150 characters", p.Pos(ex.Pos()), atoms[`utf8.RuneCountInString(`+title+`) <= 150`], "counted with utf8.RuneCountInString on the <title> text")
+		r.Add("A2", "title length gate: fewer than 15 characters", p.Pos(ex.Pos()), atoms[`utf8.RuneCountInString(`+title+`) <= 14`], "")
+		sepColon := atoms[`strings.Index(`+title+`,": ") == -1`] || atoms[`strings.Contains(`+title+`,": ")`]
+		r.Add("A2", "separator test on the <title> text", p.Pos(ex.Pos()), atoms[`regexp.Regexp.MatchString(extractor.rxTitleSeparator,`+title+`)`] && sepColon, "")
 		nPlain, bad := 0, 0
-		for _, pa := range paths {
+		for _, pa := range feasible {
 			lit := map[string]int{}
 			for _, l := range pa.Lits {
 				lit[l.Atom] = tern(l.Val)
 			}
-			if lit[`regexp.Regexp.MatchString(extractor.rxTitleSeparator,`+title+`)`] == -1 && lit[`strings.Index(`+title+`,": ") == -1`] == 1 &&
+			noColon := lit[`strings.Index(`+title+`,": ") == -1`] == 1 || lit[`strings.Contains(`+title+`,": ")`] == -1
+			if lit[`regexp.Regexp.MatchString(extractor.rxTitleSeparator,`+title+`)`] == -1 && noColon &&
 				lit[`utf8.RuneCountInString(`+title+`) <= 150`] == 1 && lit[`utf8.RuneCountInString(`+title+`) <= 14`] == -1 {
 				nPlain++
-				if lit[`dom.QuerySelector($0,"h1") == nil`] != 0 || strings.Contains(pa.Outcome, `"h1"`) && !strings.Contains(pa.Outcome, "μ(") {
+				if lit[`dom.QuerySelector($0.‹*html.Node›,"h1") == nil`] != 0 {
 					bad++
 				}
 			}
 		}
-		r.Add("A2", "a <title> of 15..150 characters without separators is used without consulting <h1>", p.Pos(gt.Pos()), nPlain >= 1 && bad == 0, fmt.Sprintf("%d such decision paths, %d of them look at <h1>", nPlain, bad))
+		r.Add("A2", "a <title> of 15..150 characters without separators is used without consulting <h1>", p.Pos(ex.Pos()), nPlain >= 1 && bad == 0, fmt.Sprintf("%d such decision paths, %d of them look at <h1>", nPlain, bad))
+	}
+	if ap := mustInl(p, r, "A1", core.ModPath+".Apply"); ap != nil {
+		ok := false
+		for _, in := range instrsOf(ap) {
+			if st, isSt := in.(*ssa.Store); isSt && c.Of(st.Addr) == "&new(distiller.Result).Title" {
+				ok = strings.HasPrefix(c.Of(st.Val), "extractor.ContentExtractor.ExtractTitle(")
+			}
+		}
+		r.Add("A1", "Result.Title is the extractor's first candidate", p.Pos(ap.Pos()), ok, "")
 	}
 	lits := regexpLiterals(p, "internal/extractor")
 	r.Add("A2", "separator pattern is the reviewed one", "", lits["rxTitleSeparator"] == `(?i) [\|\-\\/>»] `, fmt.Sprintf("%q", lits["rxTitleSeparator"]))
@@ -203,73 +186,105 @@ func C15(p *core.Program, r *core.Report) {
 	norm := func(leaf string) string {
 		return `strings.ToLower(strings.TrimSpace(strings.ReplaceAll(strings.ReplaceAll(` + leaf + `,"\u00a0"," "),"'","")))`
 	}
-	if pp := mustFunc(p, r, "A3", "(*"+heuristicPkg+".DocumentTitleMatch).processPotentialTitle"); pp != nil {
-		paths, _, err := core.EnumerateDecisions(p, pp, core.DecisionOpts{
-			Outcome: func(in ssa.Instruction, c *core.Canon) (string, bool) {
-				if _, ok := in.(*ssa.Return); ok {
-					return "done", true
+	if nd := mustInl(p, r, "A3", heuristicPkg+".NewDocumentTitleMatch"); nd != nil {
+		set := "new(heuristic.DocumentTitleMatch).‹map[string]struct{}›"
+		// the loop over the given titles
+		var titlesLoop *ssa.BasicBlock
+		for _, h := range loopHeaders(nd) {
+			if ifi, ok := h.Instrs[len(h.Instrs)-1].(*ssa.If); ok {
+				if a, _ := core.NewCanon(p).CondAtom(ifi.Cond); a == `μ((@0 + 1)|0) < len($1)` {
+					titlesLoop = h
 				}
-				return "", false
-			},
-			Event: func(in ssa.Instruction, c *core.Canon) (string, bool) {
-				if mu, ok := in.(*ssa.MapUpdate); ok && c.Of(mu.Map) == "$0.potentialTitles" {
-					return "insert " + c.Of(mu.Key), true
-				}
-				return "", false
-			}})
-		if err != nil {
-			r.Undecided("A3", "processPotentialTitle", err.Error())
-		}
-		key := norm("$1")
-		nFull, bad := 0, 0
-		for _, pa := range paths {
-			lit := map[string]int{}
-			for _, l := range pa.Lits {
-				lit[l.Atom] = tern(l.Val)
-			}
-			if lit[key+` == ""`] == 1 || lit[`in($0.potentialTitles,`+key+`)`] == 1 {
-				continue // early returns
-			}
-			nFull++
-			if !strings.Contains(pa.Outcome, "insert "+key+";") && !strings.HasPrefix(pa.Outcome, "insert "+key+" =>") {
-				bad++
 			}
 		}
-		r.Add("A3", "processPotentialTitle registers the whole normalised title it looked up", p.Pos(pp.Pos()), nFull >= 4 && bad == 0, fmt.Sprintf("%d paths past the early returns, %d without the insert of the looked-up key", nFull, bad))
+		if titlesLoop == nil {
+			r.Undecided("A3", "NewDocumentTitleMatch: loop over the given titles", "no range over the titles parameter found")
+		} else {
+			paths, _, err := core.EnumerateDecisions(p, nd, core.DecisionOpts{IterateAt: titlesLoop,
+				Outcome: func(in ssa.Instruction, c *core.Canon) (string, bool) {
+					if _, ok := in.(*ssa.Return); ok {
+						return "done", true
+					}
+					return "", false
+				},
+				Event: func(in ssa.Instruction, c *core.Canon) (string, bool) {
+					if mu, ok := in.(*ssa.MapUpdate); ok && c.Of(mu.Map) == set {
+						return "insert " + c.Of(mu.Key), true
+					}
+					return "", false
+				}})
+			if err != nil {
+				r.Undecided("A3", "NewDocumentTitleMatch", err.Error())
+			}
+			key := norm("elem($1)")
+			nFull, bad := 0, 0
+			for _, pa := range paths {
+				lit := map[string]int{}
+				for _, l := range pa.Lits {
+					lit[l.Atom] = tern(l.Val)
+				}
+				if lit[key+` == ""`] == 1 || lit[`in(`+set+`,`+key+`)`] == 1 {
+					continue // empty or already known title: nothing to add
+				}
+				nFull++
+				if !strings.Contains(pa.Outcome, "insert "+key+";") && !strings.HasPrefix(pa.Outcome, "insert "+key+" =>") {
+					bad++
+				}
+			}
+			r.Add("A3", "every given title is registered whole, in normalised form", p.Pos(nd.Pos()), nFull >= 4 && bad == 0, fmt.Sprintf("%d iteration paths past the empty/known tests, %d without the insert of the looked-up key", nFull, bad))
+		}
 	}
-	if pr := mustFunc(p, r, "A3", "(*"+heuristicPkg+".DocumentTitleMatch).Process"); pr != nil {
+	if pr := mustInl(p, r, "A3", "(*"+heuristicPkg+".DocumentTitleMatch).Process"); pr != nil {
 		// first lookup key of the block side
 		want := norm("*elem($1.TextBlocks).Text")
 		want2 := norm("elem($1.TextBlocks).Text")
 		found := false
 		var keys []string
-		for _, b := range pr.Blocks {
-			for _, in := range b.Instrs {
-				if lk, ok := in.(*ssa.Lookup); ok && c.Of(lk.X) == "$0.potentialTitles" {
-					k := c.Of(lk.Index)
-					keys = append(keys, k)
-					if k == want || k == want2 {
-						found = true
-					}
+		for _, in := range instrsOf(pr) {
+			if lk, ok := in.(*ssa.Lookup); ok && c.Of(lk.X) == "$0.‹map[string]struct{}›" {
+				k := c.Of(lk.Index)
+				keys = append(keys, k)
+				if k == want || k == want2 {
+					found = true
 				}
 			}
 		}
 		r.Add("A3", "blocks are normalised with the same chain as potential titles", p.Pos(pr.Pos()), found, "lookup keys: "+strings.Join(keys, " ; "))
-		// a match labels the block as title
-		n := len(core.Calls(pr, func(ci ssa.CallInstruction) bool { return core.IsCallTo(ci, "(*"+webdocPkg+".TextBlock).AddLabels") }))
-		r.Add("A3", "a matching block is labelled Title", p.Pos(pr.Pos()), n == 2, fmt.Sprintf("%d AddLabels calls", n))
+		// a match labels the block as title: every lookup hit leads to AddLabels(Title)
+		hs := loopHeaders(pr)
+		okLabel := false
+		if len(hs) == 1 {
+			paths, _, _ := core.EnumerateDecisions(p, pr, core.DecisionOpts{IterateAt: hs[0], Outcome: noOutcome, Event: callEvent(regexp.MustCompile(`AddLabels`))})
+			okLabel = len(paths) > 0
+			for _, pa := range paths {
+				hit := false
+				for _, l := range pa.Lits {
+					if strings.HasPrefix(l.Atom, "in($0.‹map[string]struct{}›,") && l.Val {
+						hit = true
+					}
+				}
+				if hit != strings.Contains(pa.Outcome, `AddLabels(elem($1.TextBlocks),{"de.l3s.boilerpipe/TITLE"})`) {
+					okLabel = false
+				}
+			}
+		}
+		r.Add("A3", "a matching block is labelled Title (and only a matching one)", p.Pos(pr.Pos()), okLabel, "")
 	}
 	// the candidates given to the matcher are the extractor's candidate titles
-	if pd := mustFunc(p, r, "A3", "(*"+extractorPkg+".ContentExtractor).processDocument"); pd != nil {
-		ok := false
-		for _, call := range core.Calls(pd, func(ci ssa.CallInstruction) bool { return core.IsCallTo(ci, "(*"+extractorPkg+".ArticleExtractor).Extract") }) {
-			ok = c.Of(call.Common().Args[3]) == "$0.candidateTitles"
+	if ec := mustInl(p, r, "A3", "(*"+extractorPkg+".ContentExtractor).ExtractContent"); ec != nil {
+		calls := core.Calls(ec, func(ci ssa.CallInstruction) bool { return core.IsCallTo(ci, "(*"+extractorPkg+".ArticleExtractor).Extract") })
+		ok := len(calls) > 0
+		for _, call := range calls {
+			if c.Of(call.Common().Args[3]) != cand {
+				ok = false
+			}
 		}
-		r.Add("A3", "the article extractor receives the candidate titles", p.Pos(pd.Pos()), ok, "")
+		r.Add("A3", "the article extractor receives the candidate titles", p.Pos(ec.Pos()), ok, fmt.Sprintf("%d Extract calls", len(calls)))
 	}
 
 	// ---- A4
-	if tg := mustFunc(p, r, "A4", "(*"+webdocPkg+".Text).GenerateOutput"); tg != nil {
+	_ = c
+	if tg := mustInl(p, r, "A4", "(*"+webdocPkg+".Text).GenerateOutput"); tg != nil {
 		cut, m := core.CutAtoms(p, tg, regexp.MustCompile(`^in\(\$0\.Labels,"de\.l3s\.boilerpipe/TITLE"\)$`), false)
 		// with the "has no title label" edge removed only `return ""` remains reachable
 		ok := len(m) == 1
@@ -290,7 +305,7 @@ func C15(p *core.Program, r *core.Report) {
 		}
 		r.Add("A4", "a Text labelled Title renders as \"\" in both views, before anything else", p.Pos(tg.Pos()), ok && first == `in($0.Labels,"de.l3s.boilerpipe/TITLE")`, "first test: "+first)
 	}
-	if am := mustFunc(p, r, "A4", "(*"+webdocPkg+".TextBlock).ApplyToModel"); am != nil {
+	if am := mustInl(p, r, "A4", "(*"+webdocPkg+".TextBlock).ApplyToModel"); am != nil {
 		hs := loopHeaders(am)
 		ok := false
 		if len(hs) == 1 {
@@ -305,4 +320,35 @@ func C15(p *core.Program, r *core.Report) {
 		}
 		r.Add("A4", "a title block passes the Title label to its Text elements", p.Pos(am.Pos()), ok, "")
 	}
+}
+
+// appendedElem: for append(s, x) with a single variadic element, the element value.
+func appendedElem(c *ssa.Call) ssa.Value {
+	if len(c.Call.Args) != 2 {
+		return nil
+	}
+	sl, ok := c.Call.Args[1].(*ssa.Slice)
+	if !ok {
+		return nil
+	}
+	al, ok := sl.X.(*ssa.Alloc)
+	if !ok {
+		return nil
+	}
+	var out ssa.Value
+	n := 0
+	for _, ref := range *al.Referrers() {
+		if ia, ok := ref.(*ssa.IndexAddr); ok {
+			for _, r2 := range *ia.Referrers() {
+				if st, ok := r2.(*ssa.Store); ok && st.Addr == ia {
+					out = st.Val
+					n++
+				}
+			}
+		}
+	}
+	if n == 1 {
+		return out
+	}
+	return nil
 }
